@@ -73,6 +73,12 @@ structure Db where
   cache : List (Nat × String) := []
   batches : List (Nat × List WOp) := []
   sbufs : List (Nat × List SOp) := []
+  /-- Fjall: the visible sequence number of this session is > 0: a keyspace has been created or a
+  non-empty batch committed since the database was opened, or recovery found committed items.
+  Only observable through over-long keys. -/
+  seqPos : Bool := false
+  /-- a non-empty batch has ever been committed (its items are recovered on reopen) -/
+  everCommitted : Bool := false
 
 /-- Outcome of a write-side call. -/
 inductive Res where
@@ -92,14 +98,16 @@ def resolve (be : Backend) (db : Db) (id : Nat) (kind : Kind) : String × Db :=
     let n := cfName be.namePrefix kind id
     (n, { db with
             cache := aset db.cache id n
-            disk := if (aget db.disk n).isSome then db.disk else db.disk ++ [(n, [])] })
+            disk := if (aget db.disk n).isSome then db.disk else db.disk ++ [(n, [])]
+            seqPos := db.seqPos || !(aget db.disk n).isSome })
 
 def badKey (be : Backend) (key : Bytes) : Bool :=
   match be.maxKey with
   | some m => key.isEmpty || decide (key.length > m)
   | none => false
 
-/-- Fjall read path: `InternalKey::new` asserts `key.len() <= u16::MAX` (lookups and range bounds). -/
+/-- Fjall read path: `InternalKey::new` asserts `key.len() <= u16::MAX` (memtable lookups once the
+sequence number is positive, and the bounds of every prefix range). -/
 def keyOver (be : Backend) (key : Bytes) : Bool :=
   match be.maxKey with
   | some m => decide (key.length > m)
@@ -169,7 +177,10 @@ def applyOp (d : Disk) (op : WOp) : Disk :=
 def commit (db : Db) (h : Nat) : Res × Db :=
   match aget db.batches h with
   | none => (.badHandle, db)
-  | some ops => (.ok, { db with disk := ops.foldl applyOp db.disk, batches := adel db.batches h })
+  | some ops =>
+    (.ok, { db with disk := ops.foldl applyOp db.disk, batches := adel db.batches h,
+                    seqPos := db.seqPos || !ops.isEmpty,
+                    everCommitted := db.everCommitted || !ops.isEmpty })
 
 /-- dropping a batch without committing it -/
 def dropBatch (db : Db) (h : Nat) : Res × Db :=
@@ -178,15 +189,19 @@ def dropBatch (db : Db) (h : Nat) : Res × Db :=
   | some _ => (.ok, { db with batches := adel db.batches h })
 
 /-- close and open again: only the store content survives. -/
-def reopen (db : Db) : Db := { disk := db.disk }
+def reopen (db : Db) : Db :=
+  { disk := db.disk, seqPos := db.everCommitted, everCommitted := db.everCommitted }
 
 /-- `get_wide_column` (value bytes; decoding them is the codec's business).
-Outer `none` = the call panics (Fjall, composite key longer than 65535 bytes). -/
+Outer `none` = the call panics: Fjall reads through `Database::snapshot()`; for a composite key longer
+than 65535 bytes `Memtable::get` answers `None` straight away when the snapshot's sequence number is
+0 (nothing has ever been committed) and otherwise trips `InternalKey::new`'s length assertion. -/
 def get (be : Backend) (db : Db) (id : Nat) (pl : Placement) (encD encK : Bytes) :
     Option (Option Bytes) × Db :=
   let r := resolve be db id .wide
   let key := wideKey be.padKey pl encD encK
-  if keyOver be key then (none, r.2) else (some (aget (r.2.disk.col r.1) key), r.2)
+  if keyOver be key then (if r.2.seqPos then none else some none, r.2)
+  else (some (aget (r.2.disk.col r.1) key), r.2)
 
 def insertKey (k : Bytes) : List Bytes → List Bytes
   | [] => [k]
